@@ -396,6 +396,20 @@ func (h *hist) opChanBind() {
 	c.MapPeersV6 = h.rng.Intn(7) == 0
 	num := h.chanNumber(c)
 	p := h.peerForFamily(c)
+	// a live binding whose host the permission handler refuses by now: its refresh is a
+	// ChannelBind like any other and must be refused
+	if a, st := h.m.Alloc(c); a != nil && st == sim.Live && h.rng.Intn(2) == 0 {
+		for _, ch := range a.Chans {
+			if ua, err := net.ResolveUDPAddr("udp", ch.Peer); err == nil && h.m.Denied(c, ua.IP) {
+				if cur, cst := a.ChanByNum(ch.Num); cur == ch && cst == sim.Live {
+					h.m.ChannelBind(c, ch.Num, ua)
+					h.rec.FP("chan/refresh-of-refused-host")
+
+					return
+				}
+			}
+		}
+	}
 	// prefer re-binding the peer already bound to this number half of the time
 	if a, st := h.m.Alloc(c); a != nil && st == sim.Live && h.rng.Intn(2) == 0 {
 		if ch, cst := a.ChanByNum(num); ch != nil && cst != sim.Dead {
@@ -575,6 +589,23 @@ func (h *hist) opProbeExpiry() {
 }
 
 func (h *hist) opTime() {
+	// now and then the operator's permission handler changes its mind about a peer host: what was
+	// granted stays until it expires, but nothing for that host is installed or refreshed any more
+	if h.rng.Intn(6) == 0 && len(h.peers) > 0 {
+		p := pick(h.rng, h.peers)
+		static := false
+		for _, ip := range h.w.Cfg.DenyPeerIPs {
+			if net.ParseIP(ip).Equal(p.Addr.IP) {
+				static = true
+			}
+		}
+		if !static {
+			denied := h.rng.Intn(3) != 0
+			h.m.SetDenied(p.Addr.IP, denied)
+			h.rec.Tracef("permission handler now denies=%v host %s", denied, p.Addr.IP)
+			h.rec.FP("late-deny/%v", denied)
+		}
+	}
 	var d time.Duration
 	switch h.rng.Intn(5) {
 	case 0:
